@@ -41,6 +41,26 @@ def D(n):
 ''' + "".join("    if n == %d:\n        return %r\n" % (k, k / 2.0) for k in range(-3, 4)) + '''    return 0.0
 
 
+IVALS = [-2, -1, 0, 1, 2, 3, 10, -7, 100]
+
+
+def I(j):
+    """integer leaf chosen by a symbolic selector, concrete on every path"""
+    k = 0
+    while k < len(IVALS) - 1:
+        if j == k:
+            return IVALS[k]
+        k += 1
+    return IVALS[-1]
+
+
+try:
+    from crosshair.tracers import NoTracing
+except ImportError:       # concrete replay outside CrossHair
+    import contextlib
+    NoTracing = contextlib.nullcontext
+
+
 def shapes(i, n):
     """argument shapes: every mode letter's positive and negative representative"""
     a, b = Term('a'), Term('b')
@@ -52,12 +72,13 @@ def shapes(i, n):
 
 def call_ok(fn, args):
     """True unless the builtin raises something that is not a ProbLog error (UnifyError = failure)"""
-    try:
-        fn(*args, **KW)
-    except ProbLogError:
-        return True
-    except UnifyError:
-        return True
+    with NoTracing():      # the arguments are concrete once the selectors are decided
+        try:
+            fn(*args, **KW)
+        except ProbLogError:
+            return True
+        except UnifyError:
+            return True
     return True
 '''
 
@@ -72,6 +93,98 @@ BUILTINS = [
 NSHAPES = 15
 
 
+# ---- part B: small programs through parser, grounder, cycle breaking and CNF construction ------------------------
+P_HEADS = ["a", "0.3::a", "0.3::a; 0.4::b", "P::a", "0.3::f(X)", "t(_)::a", "0.3::\\\\+a", "?::d", "utility(a,3)", "1/2::a", "f(X,Y)", "1.5::a",
+           "-0.1::a", "x::a", "0.3::a; 0.9::b", "a(1)", "0.5::a(1); 0.5::a(2)", "f(X)", "X", "1", "[a]", "(a,b)", "\\\\+a", "0.5::X", "0.5::1",
+           "a;b", "a:b", "0.5::a:b"]
+P_BODIES = ["", " :- b", " :- b, \\\\+c", " :- \\\\+a", " :- X > 1", " :- X is Y+1", " :- true", " :- fail", " :- \\\\+ \\\\+ b", " :- findall(X, q(X), L)",
+            " :- call(b)", " :- X = [H|T]", " :- a", " :- between(1,3,X)", " :- X", " :- 1", " :- [a]", " :- undefined_pred(1)",
+            " :- a(X), X > 1", " :- X is foo+1", " :- X is 1/0", " :- atom_length(X, Y)", " :- write(a)", " :- subquery(a, P)", " :- b ; c",
+            " :- (b -> c ; d)", " :- forall(a,b)", " :- length(L, N)", " :- member(X,[1,2])", " :- assertz(q)", " :- clause(a, B)",
+            " :- consult(x)", " :- \\\\+ X", " :- call(X)", " :- findall(X, Y, Z)", " :- sort(a, L)", " :- msort([b,a], L)", " :- all(X, q(X), L)",
+            " :- X =.. Y", " :- functor(T, F, N)", " :- arg(N, T, A)", " :- a, !", " :- subquery(b, P, [a])", " :- cut(a)"]
+P_QUERIES = ["query(a).", "query(f(X)).", "query(X).", "query(1).", "query(b).", "evidence(a). query(a).", "evidence(a,false). query(a).",
+             "evidence(b,true). query(a).", "evidence(X). query(a).", "query(\\\\+a).", "evidence(\\\\+a). query(b).", "query(f(_,_)).", "query(a(X)).",
+             "", "query(q(X)).", ":- query(a).", "evidence(a,maybe). query(a).", "query((a,b)).", "query([a]).", "query(a). query(a)."]
+P_EXTRA = ["", "b.", "0.5::b.", "b :- a.", "0.5::c. b :- c.", "q(1). q(2).", "a :- b.", "a :- a.", "a :- \\\\+a.", "b :- \\\\+a.",
+           ":- use_module(library(lists)).", ":- use_module(library(nosuch)).", ":- foo.", "0.5::q(1); 0.6::q(2)."]
+
+
+def _tree(name, items):
+    lines = ["def %s(j):" % name]
+
+    def rec(lo, hi, ind):
+        if hi - lo == 1:
+            lines.append('%sreturn "%s"' % (ind, items[lo].replace('"', '\\"')))
+            return
+        mid = (lo + hi) // 2
+        lines.append("%sif j < %d:" % (ind, mid))
+        rec(lo, mid, ind + "    ")
+        rec(mid, hi, ind)
+    rec(0, len(items), "    ")
+    return "\n".join(lines) + "\n"
+
+
+PIPE_PREAMBLE = '''
+from problog.program import PrologString
+from problog.errors import ProbLogError
+from problog.formula import LogicFormula, LogicDAG
+from problog.cnf_formula import CNF
+import contextlib
+import io
+try:
+    from crosshair.tracers import NoTracing
+except ImportError:       # concrete replay outside CrossHair
+    import contextlib
+    NoTracing = contextlib.nullcontext
+
+''' + _tree("PH", P_HEADS) + "\n\n" + _tree("PB", P_BODIES) + "\n\n" + _tree("PQ", P_QUERIES) + "\n\n" + _tree("PE", P_EXTRA) + '''
+
+def pipeline_ok(head, body, extra, query):
+    """True unless parsing, grounding, cycle breaking or CNF construction raise something that is not a ProbLog error"""
+    s = head + body + "." + chr(10) + extra + chr(10) + query + chr(10)
+    # the text is concrete on every path (the selectors are decided): the real code runs untraced, at native speed
+    with NoTracing():
+        try:
+            with contextlib.redirect_stdout(io.StringIO()):      # write/1 and friends must not garble CrossHair's report
+                lf = LogicFormula.create_from(PrologString(s))
+                dag = LogicDAG.create_from(lf)
+                CNF.create_from(dag)
+        except ProbLogError:
+            return True
+    return True
+'''
+
+
+def _lit(s):
+    return '"%s"' % s.replace('"', '\\"')
+
+
+def pipe_harnesses(tier):
+    hs = []
+
+    def h(name, params, ranges, call, meta):
+        sig = ", ".join("%s: int" % p for p in params)
+        pre = " and ".join("0 <= %s < %d" % (p, r) for p, r in zip(params, ranges))
+        src = 'def %s(%s) -> bool:\n    """\n    pre: %s\n    post: _\n    """\n    return %s\n' % (name, sig, pre, call)
+        meta["part"] = "pipeline"
+        hs.append(xh.Harness(name, src, meta))
+    nb, nq, ne = len(P_BODIES), len(P_QUERIES), len(P_EXTRA)
+    for i, hd in enumerate(P_HEADS):
+        if tier == "quick":
+            h("p_head_%d" % i, ["b"], [nb], "pipeline_ok(%s, PB(b), '', 'query(a).')" % _lit(hd), {"fixed": "head %s" % hd})
+        else:
+            for q in range(nq):
+                h("p_head_%d_%d" % (i, q), ["b", "e"], [nb, ne], "pipeline_ok(%s, PB(b), PE(e), %s)" % (_lit(hd), _lit(P_QUERIES[q])),
+                  {"fixed": "head %s query %s" % (hd, P_QUERIES[q])})
+    if tier == "quick":
+        for q, qs in enumerate(P_QUERIES):
+            h("p_query_%d" % q, ["b"], [nb], "pipeline_ok('0.3::a', PB(b), 'b.', %s)" % _lit(qs), {"fixed": "query %s" % qs})
+        for e, es in enumerate(P_EXTRA):
+            h("p_extra_%d" % e, ["b"], [nb], "pipeline_ok('a', PB(b), %s, 'query(a).')" % _lit(es), {"fixed": "extra %s" % es})
+    return hs
+
+
 def harnesses(tier):
     hs = []
     idx = 0
@@ -80,15 +193,15 @@ def harnesses(tier):
         for f in firsts:
             idx += 1
             if arity == 1:
-                body = "S = shapes(i, n)\nreturn call_ok(eb._builtin_%s, [S[%d]])" % (name, f)
+                body = "S = shapes(I(i), n)\nreturn call_ok(eb._builtin_%s, [S[%d]])" % (name, f)
             elif arity == 2:
-                body = ("S = shapes(i, n)\nfor y in S:\n    if not call_ok(eb._builtin_%s, [S[%d], y]):\n        return False\nreturn True"
+                body = ("S = shapes(I(i), n)\nfor y in S:\n    if not call_ok(eb._builtin_%s, [S[%d], y]):\n        return False\nreturn True"
                         % (name, f))
             else:
-                zs = "S" if tier == "thorough" else "(S[::3] + [S[7]])"
-                body = ("S = shapes(i, n)\nfor y in S:\n    for z in %s:\n        if not call_ok(eb._builtin_%s, [S[%d], y, z]):\n"
+                zs = "S"
+                body = ("S = shapes(I(i), n)\nfor y in S:\n    for z in %s:\n        if not call_ok(eb._builtin_%s, [S[%d], y, z]):\n"
                         "            return False\nreturn True" % (zs, name, f))
-            src = 'def h_%d(i: int, n: int) -> bool:\n    """\n    pre: -2 <= i <= 2 and n == 0\n    post: _\n    """\n%s\n' % (
+            src = 'def h_%d(i: int, n: int) -> bool:\n    """\n    pre: 0 <= i <= 8 and n == 0\n    post: _\n    """\n%s\n' % (
                 idx, "\n".join("    " + l for l in body.split("\n")))
             hs.append(xh.Harness("h_%d" % idx, src, {"builtin": name, "arity": arity, "first": f}))
     return hs
@@ -99,15 +212,20 @@ def main(tier, seed):
               "one CrossHair condition per (builtin, shape of the first argument): the remaining arguments range over the same 15 "
               "shapes (every mode letter's positive and negative representative: variable, atom, integer, float, string, compound, "
               "non-ground compound, list, partial list, [], arithmetic expressions incl. an ill-typed one and a division by zero) "
-              "with symbolic integer / float leaves; CrossHair reports any exception that is not a ProbLogError")
+              "with symbolic integer / float leaves; CrossHair reports any exception that is not a ProbLogError. Part B: small programs "
+              "assembled by symbolic selectors (decision trees) run through parser, grounder, cycle breaking and CNF construction")
     run.functions = FUNCS
-    run.assumptions = ["only the builtin layer is covered: shapes enumerated, integer leaves symbolic in [-2,2]; the float leaf is the constant 1.5 (CrossHair does not exhaust symbolic floats)",
+    run.assumptions = ["builtin layer: shapes enumerated; the integer leaf is chosen by a symbolic selector among -7,-2,-1,0,1,2,3,10,100 and is concrete (astronomically large integers, which end in MemoryError for length/2 and functor/3, are resource limits outside the claim) on "
+                       "every path, so the builtin itself runs untraced (NoTracing) and every condition is exhausted; the float leaf is 1.5",
                        "UnifyError is the internal failure signal of a builtin and is accepted",
-                       "NOT covered (CrossHair cannot explore the parser or the engine on symbolic text within reach: 'Not confirmed' "
-                       "after 60-100 s at 3 characters): malformed syntax, undefined predicates, non-ground probabilistic clauses; "
-                       "invalid probabilities are C30's subject"]
+                       "part B (pipeline): program text = head + body + extra clause + query lines, each chosen by a symbolic selector from "
+                       "lists of 28 heads, 44 bodies, 20 query/evidence forms, 14 extra clauses (well-formed and malformed: undefined "
+                       "predicates, non-ground probabilistic heads, invalid probabilities, unbound calls, cut, negative loops, self-referring "
+                       "subquery, missing library ...); the real parser, grounder, cycle breaking and CNF construction run on every path; "
+                       "knowledge compilation and evaluation (dsharp subprocess) are not run inside CrossHair - evaluation-time "
+                       "rejections are C30's subject; malformed token sequences are C17's"]
     hs = harnesses(tier)
-    timeout = 6 if tier == "quick" else 240
+    timeout = 60 if tier == "quick" else 600
     st = Stats()
     res, cpu = xh.run(hs, PREAMBLE, per_condition_timeout=timeout, per_module=8)
     byname = dict((h.name, h) for h in hs)
@@ -134,8 +252,37 @@ def main(tier, seed):
                              {"kind": "xh", "harness": h.source, "name": h.name, "args": list(call[1]), "kwargs": call[2]})
             else:
                 st.ob("inconclusive", key=okey, note="counterexample did not replay: %s" % detail[:100])
+    # part B: programs through the pipeline
+    phs = pipe_harnesses(tier)
+    pres, pcpu = xh.run(phs, PIPE_PREAMBLE, per_condition_timeout=90 if tier == "quick" else 900, per_module=2)
+    pby = dict((h.name, h) for h in phs)
+    for name, (verdict, detail) in sorted(pres.items()):
+        h = pby[name]
+        okey = "pipeline:%s" % h.meta["fixed"]
+        if verdict == "confirmed":
+            st.ob("proved", key=okey)
+        elif verdict == "inconclusive":
+            st.ob("inconclusive", key=okey, note="%s: %s" % (okey, detail[:60]))
+        else:
+            call = xh.parse_call(detail)
+            exc = None
+            if call:
+                kind, val = xh.call_harness(PIPE_PREAMBLE, h, call[1], call[2])
+                if kind == "exc":
+                    exc = val
+            if exc is not None:
+                from vlib.semcheck import call_site
+                st.ob("refuted", key=okey)
+                st.violation("pipeline:%s@%s" % (type(exc).__name__, call_site(exc)),
+                             "a small program raised %s: %s at %s (%s, selectors %s)" % (type(exc).__name__, str(exc)[:120], call_site(exc), h.meta["fixed"], call[1:]),
+                             {"kind": "pipeline", "harness": h.source, "name": h.name, "args": list(call[1]), "kwargs": call[2]})
+            else:
+                st.ob("inconclusive", key=okey, note="counterexample did not replay: %s" % detail[:100])
+    cpu += pcpu
     st["samples"].append({"harness": hs[0].source})
     st["samples"].append({"harness": hs[len(hs) // 2].source})
+    st["samples"].append({"harness": phs[0].source})
+    hs = hs + phs
     st["solver_time"] += cpu
     st["queries"] += len(hs)
     st["programs"] = len(hs)
@@ -147,5 +294,5 @@ def main(tier, seed):
 
 def replay(obj):
     h = xh.Harness(obj["name"], obj["harness"])
-    kind, val = xh.call_harness(PREAMBLE, h, obj["args"], obj.get("kwargs") or {})
+    kind, val = xh.call_harness(PIPE_PREAMBLE if obj.get("kind") == "pipeline" else PREAMBLE, h, obj["args"], obj.get("kwargs") or {})
     return kind == "exc"
